@@ -59,6 +59,8 @@ def build_case(case):
     hours = []
     for h in range(HOURS):
         ts = T0 + timedelta(hours=h)
+        if case.get("gap") and h == settle_h:
+            continue  # the collector has no snapshot of this hour at all (no book, no trading); the account's price feed does have the hour (run_case)
         under = UNDER[case["under"]] if h == settle_h else 2000.0 + 3 * h
         instrs = []
         names = [("OPT", case["kind"]), (other_name(case), "CALL")]  # the frame is sorted by (hour, instrument name)
@@ -80,11 +82,11 @@ def build_case(case):
                 row["settlement_price"] = 0.06  # the exchange's daily settlement price of the OPTION (in coin) - not what an expiry is settled against
             instrs.append(row)
         hours.append((ts, instrs))
-        if case["co"] == "uni":
+        if case["co"] == "uni" and not case.get("gap"):
             # the collector also took a snapshot at half past the hour; the history is thinned to the hour below
             hours.append((ts + timedelta(minutes=30), [dict(x) for x in instrs]))
     data = db.frame(hours)
-    if case["co"] == "uni":
+    if case["co"] == "uni" and not case.get("gap"):
         # rows filtered with a boolean mask: the frame's MultiIndex still lists the dropped :30 times among its (now unused) level values
         data = data[data.index.get_level_values(0).minute == 0]
     return data, expiry, settle_h
@@ -116,6 +118,11 @@ def run_case(case):
         for c in up.columns:
             prices[c] = up[c]
         assets += [(uni.USDC, 1000), (uni.WETH, 1)]
+        if case.get("gap") and settle_h is not None:
+            # the price feed of the account is complete: from the settlement hour on it shows the underlying of that hour (the option history has a hole there)
+            at = pd.Timestamp(T0) + pd.Timedelta(hours=settle_h)
+            sel = (prices.index >= at) & (prices.index < at + pd.Timedelta(hours=1))
+            prices.loc[sel, "ETH"] = Decimal(str(UNDER[case["under"]]))
     obs = {"bars": [], "held_after_bar": [], "cash_after_bar": [], "attempts": []}
     bought, sold = HOLD[case["hold"]]
 
@@ -196,7 +203,9 @@ def judge(part, case):
     if obs["settle_h"] is not None and obs["settle_h"] <= 1:
         sold = 0
     n = Fraction(bought - sold)
-    open_bars = [b for b in bars if b == b.floor("1h") and b in hours_in_data]
+    # the hourly market serves a bar when the bar is on the hour; an hour of which the history has no snapshot has no book (nothing can be traded), but positions
+    # that have expired by then are still settled on it, against the account's price feed and a mark of 0 - like an instrument that is missing from the book
+    open_bars = [b for b in bars if b == b.floor("1h") and (b in hours_in_data or case.get("gap"))]
     settle_bar = next((b for b in open_bars if b >= expiry), None)
     acts = obs["actions"]
     expired = [a for a in acts if type(a).__name__ == "ExpiredAction" and a.instrument_name == "OPT"]
@@ -232,8 +241,11 @@ def judge(part, case):
     if any(obs["held_after_bar"][i:]):
         part.violation("C16|reappeared", "a settled position is held again", case)
     # ---- payoff --------------------------------------------------------------------------------------------------------------
-    rows = data.loc[settle_bar]
-    if "OPT" in rows.index:
+    rows = data.loc[settle_bar] if settle_bar in hours_in_data else None
+    if rows is None:
+        S = F(Decimal(str(UNDER[case["under"]])))  # what the account's price feed shows for that hour
+        mark = Fraction(0)
+    elif "OPT" in rows.index:
         S = F(Decimal(str(rows.loc["OPT"].underlying_price)))
         mark = F(Decimal(str(rows.loc["OPT"].mark_price)))
     else:
@@ -298,6 +310,7 @@ def judge(part, case):
     # ---- open / closed bars ----------------------------------------------------------------------------------------------------
     for ts, on_hour, ok, err in obs["attempts"]:
         part.count("trade_attempts")
+        on_hour = on_hour and pd.Timestamp(ts) in hours_in_data  # an hour without a snapshot is no open bar
         if on_hour and not ok:
             part.violation("C16|open-bar-trade-refused", "a trade on an open (hourly) bar was refused", case, {"bar": str(ts), "error": err})
             break
@@ -342,6 +355,9 @@ def all_cases(run):
         if mk == "missing" and e in ("before", "on-h0"):
             continue  # the position is bought at hour 0, where the instrument then has to be in the book
         out.append({"kind": k, "under": u, "mark": mk, "expiry": e, "hold": h, "co": co, "book": bk})
+        if co == "uni" and mk == "normal" and e in ("on-h2", "between-h2-h3") and h in ("buy5sell2", "buy1") and bk == "opt-first" and u in ("K+d", "K-d", "K"):
+            # the hour of the settlement is missing from the option history while the minutely market has its bars
+            out.append({"kind": k, "under": u, "mark": mk, "expiry": e, "hold": h, "co": co, "book": bk, "gap": True})
     return out
 
 
